@@ -178,8 +178,8 @@ impl Monitor for C05 {
                     format!("asset price {} liability price {}", q_str(&p_a), q_str(&p_l)), idx));
                 continue;
             }
-            let da = pow10(ab.mint_decimals as u32);
-            let dl = pow10(lb.mint_decimals as u32);
+            let da = pow10(crate::refm::balance_decimals(&ab) as u32);
+            let dl = pow10(crate::refm::balance_decimals(&lb) as u32);
             let v = &q_a * &p_a / &da;
             let q_lf = &v * qr(95, 100) * &dl / &p_l;
             let q_ll = &v * qr(975, 1000) * &dl / &p_l;
